@@ -26,6 +26,7 @@ def c3(ctx):
 
 def c5(ctx):
     serial.str_is_serialize(ctx)
+    entry.detection_fallback(ctx)
     serial.layout(ctx)
     writers.charts_items(ctx)
     serial.serializer_raw_text(ctx, 'sm')
